@@ -1,7 +1,7 @@
 (** S-expression codec between the harness and the model, and the model's
     entry point [run_case]. *)
 From Coq Require Import List ZArith NArith Bool Floats.SpecFloat.
-From AG Require Import Str F64 Value Json Expr Ops Pipeline Filter.
+From AG Require Import Str F64 Value Json Expr Ops Pipeline Filter Output Display Term.
 Import ListNotations.
 Open Scope string_scope.
 Open Scope list_scope.
@@ -347,6 +347,63 @@ Definition enc_run (r : run_result) : sexp :=
   | Unm => sym "unm"
   end.
 
+(** *** printing a run the way the chosen output mode does *)
+Inductive outmode := MLogfmt | MFormat (f : str) | MLegacy (term : option (nat * nat)).
+
+Definition table_row_data (cols : list str) (d : data) : data :=
+  fold_left (fun acc c => put c (match get c d with Some v => v | None => VNone end) acc) cols [].
+
+Definition print_rows (f : data -> res str) (rows : list data) : res str :=
+  fold_right (fun d racc => do s <- f d; do acc <- racc; Ok (s ++ 10%N :: acc)) (Ok []) rows.
+
+Definition print_run (m : outmode) (r : run_result) : sexp :=
+  let txt :=
+    match out r with
+    | Ok (ORows rows) =>
+        match m with
+        | MLogfmt => print_rows logfmt_row (map rdata rows)
+        | MFormat f => match fmt_parse f with
+                       | Some ps => print_rows (fmt_subst ps) (map rdata rows)
+                       | None => Err
+                       end
+        | MLegacy _ => Unm
+        end
+    | Ok (OTable t) =>
+        match m with
+        | MLogfmt => print_rows logfmt_row (map (table_row_data (t_cols t)) (t_rows t))
+        | MFormat f => match fmt_parse f with
+                       | Some ps => print_rows (fmt_subst ps) (map (table_row_data (t_cols t)) (t_rows t))
+                       | None => Err
+                       end
+        | MLegacy term => do st <- format_aggregate (mkPP [] term) t; Ok (snd st)
+        end
+    | Err => Err | Panic => Panic | Unm => Unm
+    end in
+  match txt with
+  | Ok s => SList [sym "text"; SList [sym "err"; sint (Z.of_nat (nerr r))]; sstr s]
+  | Err => sym "reject"
+  | Panic => sym "panic"
+  | Unm => sym "unm"
+  end.
+
+Definition dec_mode (x : sexp) : option outmode :=
+  if is_sym x "logfmt" then Some MLogfmt
+  else match x with
+       | SList [h; a] =>
+           if is_sym h "format" then option_map MFormat (atom_str a)
+           else if is_sym h "legacy" then
+             if is_sym a "none" then Some (MLegacy None) else None
+           else None
+       | SList [h; w; hh] =>
+           if is_sym h "legacy" then
+             match atom_Z w, atom_Z hh with
+             | Some w, Some hh => Some (MLegacy (Some (Z.to_nat w, Z.to_nat hh)))
+             | _, _ => None
+             end
+           else None
+       | _ => None
+       end.
+
 (** *** entry point *)
 Definition run_case (c : sexp) : sexp :=
   match c with
@@ -358,6 +415,27 @@ Definition run_case (c : sexp) : sexp :=
             then enc_run (run_pipeline (fmatches f) stages lines)
             else sym "reject"
         | _, _, _ => sym "bad-case"
+        end
+      else sym "bad-case"
+  | SList [h; hh; ww; bytes] =>
+      if is_sym h "term" then
+        match atom_Z hh, atom_Z ww, atom_str bytes with
+        | Some hh, Some ww, Some bytes =>
+            let sc := term_run (blank_screen (Z.to_nat hh) (Z.to_nat ww)) (lex bytes) in
+            SList (sym "screen" :: SList [sym "cursor"; sint (Z.of_nat (sc_r sc)); sint (Z.of_nat (sc_c sc))]
+                   :: SList [sym "other"; sint (Z.of_nat (length (List.filter (fun t => match t with TOther => true | _ => false end) (lex bytes))))]
+                   :: map sstr (screen_text sc))
+        | _, _, _ => sym "bad-case"
+        end
+      else sym "bad-case"
+  | SList [h; m; f; SList stages; SList lines] =>
+      if is_sym h "print" then
+        match dec_mode m, dec_filter f, map_opt dec_stage stages, map_opt atom_str lines with
+        | Some m, Some f, Some stages, Some lines =>
+            if forallb stage_ok stages
+            then print_run m (run_pipeline (fmatches f) stages lines)
+            else sym "reject"
+        | _, _, _, _ => sym "bad-case"
         end
       else sym "bad-case"
   | _ => sym "bad-case"
